@@ -24,9 +24,9 @@ RULE = (
     "at cloning: caches warm? parts parsed/edited/lazy?, operation kind, which twin was operated)."
 )
 SHARDS = {"quick": 16, "thorough": 16}
-TIMEOUT = {"quick": 400, "thorough": 3600}
+TIMEOUT = {"quick": 400, "thorough": 7200}
 MIN_EVALS = {"quick": 5000, "thorough": 120000}
-CASES = {"quick": 45, "thorough": 1500}
+CASES = {"quick": 45, "thorough": 3000}
 ASSUMPTIONS = [
     "'indistinguishable' is judged on the digests described in the rule; object identity of lxml nodes is of course different",
     "two wrappers around the same lxml node are not clones and are not generated",
